@@ -126,6 +126,44 @@ def bLine (ws : List String) : String := Id.run do
       issues := issues ++ [s!"DIFF final state: model count {r.shared.inflight} {mfin} impl {finCount} {finVals}"]
   if issues.isEmpty then "ok" else " ## ".intercalate issues
 
+/-- `K` lines: one thread at the capacity limit.  `ops`: `c<count>:<completed pushes>`, `e<claimed>:<ok|panic>`, `p:<index|panic>`.
+    Clauses of C08 on the implementation's answers, and the model's counter (`min inflight MAX_ENTRIES`; a push or a batch
+    reserves its indices before it is rejected). -/
+def kLine (ws : List String) : String := Id.run do
+  let get := fun k => (field ws k).getD ""
+  let mut issues : List String := []
+  let mut reserved : Nat := (get "pushes").toNat?.getD 0
+  let mut last : Nat := 0
+  for op in (get "ops").splitOn "," do
+    if op.startsWith "c" then
+      match (op.drop 1).toString.splitOn ":" with
+      | [c, done] =>
+        let c := c.toNat?.getD 0
+        let done := done.toNat?.getD 0
+        if c < last then issues := issues ++ [s!"ORACLE C08 count decreased from {last} to {c}"]
+        if c < done then issues := issues ++ [s!"ORACLE C08 count {c} is smaller than the number of completed pushes {done}"]
+        if c ≠ min reserved Gen.MAX_ENTRIES then issues := issues ++ [s!"DIFF count: model {min reserved Gen.MAX_ENTRIES} impl {c}"]
+        last := c
+      | _ => issues := issues ++ [s!"bad-op {op}"]
+    else if op.startsWith "e" then
+      match (op.drop 1).toString.splitOn ":" with
+      | [claim, r] =>
+        let claim := claim.toNat?.getD 0
+        let start := reserved
+        if claim ≠ 0 then reserved := reserved + claim
+        let over := start + claim > Gen.MAX_ENTRIES
+        if (r = "panic") ≠ over then issues := issues ++ [s!"ORACLE C08 a batch claiming {claim} items at index {start} returned {r}"]
+      | _ => issues := issues ++ [s!"bad-op {op}"]
+    else if op.startsWith "p:" then
+      let r := (op.drop 2).toString
+      let start := reserved
+      reserved := reserved + 1
+      if start > Gen.MAX_ENTRIES then
+        if r ≠ "panic" then issues := issues ++ [s!"ORACLE C08 a push beyond the capacity limit returned {r}"]
+      else if r.toNat? ≠ some start then issues := issues ++ [s!"ORACLE C08 push returned {r}, expected index {start}"]
+    else issues := issues ++ [s!"bad-op {op}"]
+  if issues.isEmpty then "ok" else " ## ".intercalate issues
+
 def lLine (ws : List String) : String :=
   let get := fun k => ((field ws k).getD "").toNat?.getD 0
   let i := get "i"
